@@ -54,6 +54,9 @@ def run_playlist(ctx, prop, floor):
     t.oracle_failures = [{"signature": f["signature"], "what": f["what"], "input": f["input"]}
                          for f in (r["oracle_failures"] or [])]
     t.min_nontrivial = 0 if ctx["replay"] else floor
+    t.extra["oracle_envelope_checked_on_real_functions"] = r.get("envelope_checked", 0)
+    for f in r.get("envelope_failures") or []:
+        t.errors.append("oracle envelope (oracle_ok) violated by the real Go functions: " + f)
     if not r["subset_coverage_complete"]:
         t.errors.append("generator did not enumerate every subset of optional fields: %s" % r["subset_coverage"])
     if ctx["model_available"] and not ctx["widen"]:
